@@ -29,7 +29,7 @@ def flat(prog, lim=1000000):
     return "\n".join(out) + "\n"
 
 
-def hist_cfg(maxlen, maxdim, ill, coef, opset, recipe=False):
+def hist_cfg(maxlen, maxdim, ill, coef, opset, recipe=False, shape="poly"):
     ops = "{" + ", ".join('"%s"' % o for o in sorted(opset)) + "}" if opset else None
     return """CONSTANTS MaxLen = %d
  Slots = {1,2,3}
@@ -38,10 +38,11 @@ def hist_cfg(maxlen, maxdim, ill, coef, opset, recipe=False):
  CoefMax = %d
  OpSet %s
  Recipe = %s
+ Shape = "%s"
 SPECIFICATION Spec
 CONSTRAINT EmitProg
 CHECK_DEADLOCK FALSE
-""" % (maxlen, maxdim, ill, coef, ("= " + ops) if ops else "<- AllOps", "TRUE" if recipe else "FALSE")
+""" % (maxlen, maxdim, ill, coef, ("= " + ops) if ops else "<- AllOps", "TRUE" if recipe else "FALSE", shape)
 
 
 def crash_class(op):
